@@ -989,7 +989,7 @@ func TestCheck(t *testing.T) {
 
 	phase("hostile")
 	r.Finish("exploration",
-		"structured: a seeded generator builds a log (styles: v2, transaction-heavy v2 with 1-2 producers, message set v0, v1, mixed v0->v1->v2) of 3-35 entries with the reference encoder: v2 batches (codecs none/gzip/snappy raw+xerial/lz4/zstd, several encoder settings, transactional/idempotent/plain producers, LogAppendTime, null/empty keys and values, headers, compaction gaps, empty batches, whole-batch gaps), commit/abort markers, legacy messages and compressed wrappers with inner gaps; each case = (window of the log, request offset anywhere incl. inside a batch or a gap, isolation level, KeepControlRecords, CRC validation on/off, aborted list ascending/descending/shuffled), judged on the complete window and on one random cut; sweeps: every byte boundary of the window; short-payload: a checksummed v2 batch declaring more records than its payload holds; hostile: 12 mutation classes of valid windows with checksum repair, crafted wrappers/batches, random bytes. Non-trivial: the reference decoder reads >= 1 entry from the input (structured) / the input derives from a valid window or carries a plausible header (hostile). Distinct by hash(entry kinds+codecs+aborted in the window, isolation, keep-control, offset-inside-entry, aborted-list order, several aborts of one producer, complete|sweep) / (class, outcome)",
+		"structured: a seeded generator builds a log (styles: v2, transaction-heavy v2 with 1-2 producers, message set v0, v1, mixed v0->v1->v2, any per-entry mix of the three formats) of 3-35 entries with the reference encoder: v2 batches (codecs none/gzip/snappy raw+xerial/lz4/zstd, several encoder settings, transactional/idempotent/plain producers, LogAppendTime, null/empty keys and values, headers, compaction gaps, empty batches, whole-batch gaps), commit/abort markers, legacy messages and compressed wrappers with inner gaps; each case = (window of the log, request offset anywhere incl. inside a batch or a gap, isolation level, KeepControlRecords, CRC validation on/off, aborted list ascending/descending/shuffled), judged on the complete window and on one random cut; sweeps: every byte boundary of the window; short-payload: a checksummed v2 batch declaring more records than its payload holds; hostile: 12 mutation classes of valid windows with checksum repair, crafted wrappers/batches, random bytes. Non-trivial: the reference decoder reads >= 1 entry from the input (structured) / the input derives from a valid window or carries a plausible header (hostile). Distinct by hash(entry kinds+codecs+aborted in the window, isolation, keep-control, offset-inside-entry, aborted-list order, several aborts of one producer, complete|sweep) / (class, outcome)",
 		"internal/reflog (encoder, decoder, cgo codecs) is the trusted reference; its decoder re-reads every generated log before the case is judged",
 		"expected records are known by construction: a data batch is 'aborted' iff the generator closed its transaction with an abort marker; the aborted list given to the parser holds the aborted transactions with marker offset >= request offset and first offset <= the window's end (what a broker attaches)",
 		"'unreturned data record' is read as a non-control record at or after the request offset that the reference says must be delivered (later in the generated log, in the cut-off entry, or declared by a batch whose payload is short) and that was not returned",
